@@ -43,8 +43,9 @@ type k09Sent struct {
 }
 
 type k09Sender struct {
-	remote map[hotstuff.Hash]*hotstuff.Block
-	sent   []k09Sent
+	remote  map[hotstuff.Hash]*hotstuff.Block
+	sent    []k09Sent
+	failSub bool
 }
 
 func (s *k09Sender) NewView(hotstuff.ID, hotstuff.SyncInfo) error { return nil }
@@ -55,7 +56,12 @@ func (s *k09Sender) RequestBlock(_ context.Context, h hotstuff.Hash) (*hotstuff.
 	b, ok := s.remote[h]
 	return b, ok
 }
-func (s *k09Sender) Sub([]hotstuff.ID) (core.Sender, error) { return s, nil }
+func (s *k09Sender) Sub([]hotstuff.ID) (core.Sender, error) {
+	if s.failSub {
+		return nil, fmt.Errorf("no connection to the children")
+	}
+	return s, nil
+}
 func (s *k09Sender) SendContributionToParent(v hotstuff.View, sig hotstuff.QuorumSignature) {
 	s.sent = append(s.sent, k09Sent{uint64(v), sig})
 }
@@ -100,6 +106,10 @@ type k09World struct {
 	v        *verifOut
 	scheme   string
 	n, q     int
+	idset    string
+	ids      []uint64 // members at index 0..n-1, the outsider at index n
+	startN   int      // > 0: the node is created knowing only the first startN members ('M' adds the rest)
+	failSub  bool     // sender.Sub returns an error (the proposal cannot be forwarded to the children)
 	keys     []hotstuff.PrivateKey
 	meta     []map[string]string
 	bases    []crypto.Base
@@ -135,25 +145,58 @@ func k09Key(scheme string) hotstuff.PrivateKey {
 	}
 }
 
-// config of replica id (1..n, n+1 = outsider) knowing the n members; optional tree
-func (w *k09World) config(id int, opts ...core.RuntimeOption) *core.RuntimeConfig {
+// k09IDs: see c09IDs in the votingmachine harness ("dense" = 1..n+1, "sparse" = non-contiguous ids agreeing in their
+// low 8 / 16 bits up to 2^32-1 for the list schemes, "sparse16" = the same idea below 2^17 for BLS bitfields)
+func k09IDs(idset string, n int) []uint64 {
+	var pool []uint64
+	switch idset {
+	case "sparse":
+		pool = []uint64{3, 259, 65539, 16777219, 2147483651, 4294967043, 515, 131075, 33554435, 771, 4294967295, 1027}
+	case "sparse16":
+		pool = []uint64{3, 259, 515, 65539, 771, 1027, 1283, 66051, 1539, 1795, 2051, 2307}
+	default:
+		for i := 1; i <= n+1; i++ {
+			pool = append(pool, uint64(i))
+		}
+	}
+	return pool[:n+1]
+}
+
+func (w *k09World) id(i int) uint64 { return w.ids[i-1] }
+func (w *k09World) isMember(lab uint64) bool {
+	for _, x := range w.ids[:w.n] {
+		if x == lab {
+			return true
+		}
+	}
+	return false
+}
+func (w *k09World) addMember(c *core.RuntimeConfig, j int) {
+	c.AddReplica(&hotstuff.ReplicaInfo{ID: hotstuff.ID(w.ids[j]), PubKey: w.keys[j].Public(), Metadata: w.meta[j]})
+}
+
+// config of the replica with member index i (1..n, n+1 = outsider) knowing the first `members` members; optional tree
+func (w *k09World) configN(i, members int, opts ...core.RuntimeOption) *core.RuntimeConfig {
 	all := append([]core.RuntimeOption{core.WithSyncVerification()}, opts...)
-	c := core.NewRuntimeConfig(hotstuff.ID(id), w.keys[id-1], all...)
-	for j := 0; j < w.n; j++ {
-		c.AddReplica(&hotstuff.ReplicaInfo{ID: hotstuff.ID(j + 1), PubKey: w.keys[j].Public(), Metadata: w.meta[j]})
+	c := core.NewRuntimeConfig(hotstuff.ID(w.ids[i-1]), w.keys[i-1], all...)
+	for j := 0; j < members; j++ {
+		w.addMember(c, j)
 	}
 	return c
 }
+func (w *k09World) config(i int, opts ...core.RuntimeOption) *core.RuntimeConfig {
+	return w.configN(i, w.n, opts...)
+}
 
-func k09NewWorld(v *verifOut, scheme string, n int) *k09World {
-	w := &k09World{v: v, scheme: scheme, n: n, blocks: map[string]*k09Block{}, byHash: map[hotstuff.Hash]*k09Block{},
+func k09NewWorld(v *verifOut, scheme string, n int, idset string) *k09World {
+	w := &k09World{v: v, scheme: scheme, n: n, idset: idset, ids: k09IDs(idset, n), blocks: map[string]*k09Block{}, byHash: map[hotstuff.Hash]*k09Block{},
 		reg: map[string]k09Sig{}, logger: logging.NewWithDest(io.Discard, "k09")}
 	for i := 1; i <= n+1; i++ {
 		w.keys = append(w.keys, k09Key(scheme))
 	}
 	// first pass: crypto bases publish their connection metadata (BLS proof of possession)
 	for i := 1; i <= n+1; i++ {
-		c := core.NewRuntimeConfig(hotstuff.ID(i), w.keys[i-1])
+		c := core.NewRuntimeConfig(hotstuff.ID(w.ids[i-1]), w.keys[i-1])
 		if _, err := crypto.New(c, scheme); err != nil {
 			panic(err)
 		}
@@ -167,11 +210,7 @@ func k09NewWorld(v *verifOut, scheme string, n int) *k09World {
 		w.bases = append(w.bases, b)
 	}
 	w.q = w.config(1).QuorumSize()
-	ms := make([]uint64, n)
-	for i := range ms {
-		ms[i] = uint64(i + 1)
-	}
-	w.members = gNs(ms)
+	w.members = gNs(w.ids[:n])
 	g := hotstuff.GetGenesis()
 	mk := func(name string, view uint64) {
 		qc := hotstuff.NewQuorumCert(nil, 0, g.Hash())
@@ -212,7 +251,7 @@ func (w *k09World) genuine(id int, b *k09Block) k09Elem {
 	default:
 		raw = s.ToBytes()
 	}
-	sym := k09Sig{uint64(id), uint64(id), b.id}
+	sym := k09Sig{w.ids[id-1], w.ids[id-1], b.id}
 	w.reg[string(raw)] = sym
 	return k09Elem{raw, sym}
 }
@@ -317,12 +356,14 @@ type k09Ev struct {
 	label string
 }
 
-func (e k09Ev) term(me int) string {
+func (e k09Ev) term(me uint64) string {
 	switch e.kind {
 	case 'B':
-		return fmt.Sprintf("(KBegin %s %s [G %s %s])", gN(uint64(e.blk.id)), gN(e.view), gN(uint64(me)), gN(uint64(e.blk.id)))
+		return fmt.Sprintf("(KBegin %s %s [G %s %s])", gN(uint64(e.blk.id)), gN(e.view), gN(me), gN(uint64(e.blk.id)))
 	case 'C':
 		return fmt.Sprintf("(KContrib %s %s %s)", gN(e.id), gN(e.view), k09OptSigs(e.sig != nil, e.syms))
+	case 'M':
+		return ""
 	default:
 		return fmt.Sprintf("(KTimer %s)", gN(e.view))
 	}
@@ -333,6 +374,8 @@ func (e k09Ev) short() string {
 		return fmt.Sprintf("round for %s (view %d)", e.blk.name, e.view)
 	case 'C':
 		return fmt.Sprintf("contribution[%s] from %d view %d %s", e.label, e.id, e.view, k09OptSigs(e.sig != nil, e.syms))
+	case 'M':
+		return "membership grows to the full configuration"
 	default:
 		return fmt.Sprintf("wait timer of view %d", e.view)
 	}
@@ -343,13 +386,24 @@ type k09QC struct {
 	view     uint64
 	sigs     []k09Sig
 	verifies bool
+	raw      hotstuff.QuorumSignature
+	blk      *k09Block
 }
 
 func (w *k09World) kauriCase(s *verifStream, stream string, me int, haveBlocks []*k09Block, evs []k09Ev) {
-	tr := tree.NewSimple(hotstuff.ID(me), 2, tree.DefaultTreePos(w.n))
+	meID := w.id(me)
+	positions := make([]hotstuff.ID, w.n)
+	for i := range positions {
+		positions[i] = hotstuff.ID(w.ids[i])
+	}
+	tr := tree.NewSimple(hotstuff.ID(meID), 2, positions)
 	tr.SetTreeHeightWaitTime(time.Hour) // the wait timer is delivered by the harness, never by the sleeper
-	cfg := w.config(me, core.WithKauriTree(tr))
-	sender := &k09Sender{remote: map[hotstuff.Hash]*hotstuff.Block{}}
+	startN := w.n
+	if w.startN > 0 {
+		startN = w.startN
+	}
+	cfg := w.configN(me, startN, core.WithKauriTree(tr))
+	sender := &k09Sender{remote: map[hotstuff.Hash]*hotstuff.Block{}, failSub: w.failSub}
 	el := eventloop.New(w.logger, 1000)
 	bc := blockchain.New(el, w.logger, sender)
 	var blockIDs []uint64
@@ -374,6 +428,7 @@ func (w *k09World) kauriCase(s *verifStream, stream string, me int, haveBlocks [
 			}
 			_, q.sigs, _ = w.decode(qc.Signature(), blk)
 			q.verifies = w.verifier.VerifyQuorumCert(qc) == nil
+			q.raw, q.blk = qc.Signature(), blk
 			cur = append(cur, q)
 		}
 	})
@@ -393,9 +448,16 @@ func (w *k09World) kauriCase(s *verifStream, stream string, me int, haveBlocks [
 	var refBlock *k09Block
 	refView := uint64(0)
 	refAgg := map[uint64]bool{}
-	refOpen := false // between a round's start and its timer
+	refActive := false // a round was started
+	refNil := false    // the aggregate was reset by the wait timer
 	refSent := false
 	refSenders := map[uint64]bool{}
+	type emittedSig struct {
+		sig  hotstuff.QuorumSignature
+		blk  *k09Block
+		term string
+	}
+	var handedOut []emittedSig // for the aliasing check at the end
 
 	obsT := make([]string, 0, len(evs))
 	evT, evS := make([]string, len(evs)), make([]string, len(evs))
@@ -404,7 +466,7 @@ func (w *k09World) kauriCase(s *verifStream, stream string, me int, haveBlocks [
 	kinds := map[string]bool{}
 	var fails []func(meta any)
 	for i, e := range evs {
-		evT[i], evS[i] = e.term(me), e.short()
+		evT[i], evS[i] = e.term(meID), e.short()
 		kinds[string(e.kind)+e.label] = true
 		cur = nil
 		sender.sent = nil
@@ -419,13 +481,18 @@ func (w *k09World) kauriCase(s *verifStream, stream string, me int, haveBlocks [
 				own, _ := w.sig(w.genuine(me, e.blk))
 				pc := hotstuff.NewPartialCert(own, e.blk.blk.Hash())
 				// a block of the requested view (the proposal) — the round's view is the block's
-				_ = k.Aggregate(&hotstuff.ProposeMsg{ID: 1, Block: e.blk.blk}, pc)
+				_ = k.Aggregate(&hotstuff.ProposeMsg{ID: hotstuff.ID(w.ids[0]), Block: e.blk.blk}, pc)
 			case 'C':
 				c := &kauripb.Contribution{ID: uint32(e.id), View: e.view}
 				if e.sig != nil {
 					c.Signature = hotstuffpb.QuorumSignatureToProto(e.sig)
 				}
 				el.AddEvent(c)
+			case 'M':
+				for j := startN; j < w.n; j++ {
+					w.addMember(cfg, j)
+				}
+				startN = w.n
 			default:
 				el.AddEvent(WaitTimerExpiredEvent{currentView: hotstuff.View(e.view)})
 			}
@@ -442,6 +509,7 @@ func (w *k09World) kauriCase(s *verifStream, stream string, me int, haveBlocks [
 			sendT[j] = fmt.Sprintf("(%s, %s)", gN(x.view), k09OptSigs(present, syms))
 			nsend++
 			if present {
+				handedOut = append(handedOut, emittedSig{x.sig, curBlk, k09SigsTerm(syms)})
 				ok, why := k09Genuine(w, syms, curBlk)
 				what := fmt.Sprintf("stimulus %d: aggregate handed to the parent: verifies=%v %s", i, ver, why)
 				if !(ver && ok) {
@@ -455,6 +523,7 @@ func (w *k09World) kauriCase(s *verifStream, stream string, me int, haveBlocks [
 		for j, q := range cur {
 			qcT[j] = fmt.Sprintf("(Q %s %s %s)", gN(uint64(q.hash)), gN(q.view), k09SigsTerm(q.sigs))
 			nqc++
+			handedOut = append(handedOut, emittedSig{q.raw, q.blk, k09SigsTerm(q.sigs)})
 			var qb *k09Block
 			if q.hash >= 1 {
 				qb = w.all[q.hash-1]
@@ -465,20 +534,41 @@ func (w *k09World) kauriCase(s *verifStream, stream string, me int, haveBlocks [
 				fails = append(fails, func(meta any) { w.v.Oracle(false, "kauri.qc:does-not-verify", what, meta) })
 			}
 		}
-		obsT = append(obsT, fmt.Sprintf("(%s, %s)", gList(sendT), gList(qcT)))
-		// reference: should this stimulus have produced a certificate? (only inside the aggregation
-		// window: from the start of a round until its wait timer closes it)
+		if e.kind != 'M' {
+			obsT = append(obsT, fmt.Sprintf("(%s, %s)", gList(sendT), gList(qcT)))
+		}
+		// reference (an independent restatement of the aggregation rules): should this stimulus have produced a
+		// certificate? A round starts with the node's own vote; the wait timer hands the aggregate on and empties
+		// it (unless everything was sent already); the first acceptable contribution after that is adopted as is,
+		// later ones are merged when they do not overlap; a certificate accompanies every merge that reaches the quorum.
 		expect := false
+		var expectSend map[uint64]bool // the signers of the aggregate that must be handed to the parent now (nil = nothing)
+		expectNilSend := false
+		copyAgg := func() map[uint64]bool {
+			c := map[uint64]bool{}
+			for x := range refAgg {
+				c[x] = true
+			}
+			return c
+		}
 		switch e.kind {
 		case 'B':
-			refBlock, refView, refAgg, refOpen = e.blk, e.view, map[uint64]bool{uint64(me): true}, true
+			refBlock, refView, refAgg, refActive, refNil = e.blk, e.view, map[uint64]bool{meID: true}, true, false
 			refSent, refSenders = leaf, map[uint64]bool{}
+			if leaf {
+				expectSend = copyAgg()
+			}
 		case 'T':
-			if refOpen && e.view == refView && !refSent {
-				refOpen = false
+			if refActive && e.view == refView && !refSent {
+				if refNil {
+					expectNilSend = true
+				} else {
+					expectSend = copyAgg()
+				}
+				refNil, refAgg, refSenders = true, map[uint64]bool{}, map[uint64]bool{}
 			}
 		case 'C':
-			if refOpen && e.view == refView && e.sig != nil && len(e.syms) > 0 && k09Has(haveBlocks, refBlock) {
+			if refActive && e.view == refView && e.sig != nil && len(e.syms) > 0 && k09Has(haveBlocks, refBlock) {
 				ok, _ := k09Genuine(w, e.syms, refBlock)
 				for _, sg := range e.syms {
 					if refAgg[sg.lab] {
@@ -489,7 +579,8 @@ func (w *k09World) kauriCase(s *verifStream, stream string, me int, haveBlocks [
 					for _, sg := range e.syms {
 						refAgg[sg.lab] = true
 					}
-					expect = len(refAgg) >= w.q
+					expect = !refNil && len(refAgg) >= w.q
+					refNil = false
 					refSenders[e.id] = true
 					all := true
 					for _, x := range sub {
@@ -499,11 +590,35 @@ func (w *k09World) kauriCase(s *verifStream, stream string, me int, haveBlocks [
 					}
 					if all {
 						refSent = true
+						expectSend = copyAgg()
 					}
 				}
 			}
 		}
-		if refOpen {
+		if refActive && e.kind != 'M' {
+			// what goes to the parent: exactly the aggregate, exactly when the rules say so
+			okSend := true
+			switch {
+			case expectSend != nil:
+				okSend = len(sender.sent) == 1 && sender.sent[0].sig != nil
+				if okSend {
+					_, syms, _ := w.decode(sender.sent[0].sig, curBlk)
+					okSend = len(syms) == len(expectSend)
+					for _, sg := range syms {
+						if !expectSend[sg.lab] {
+							okSend = false
+						}
+					}
+				}
+			case expectNilSend:
+				okSend = len(sender.sent) == 1 && sender.sent[0].sig == nil
+			default:
+				okSend = len(sender.sent) == 0
+			}
+			if !okSend {
+				what := fmt.Sprintf("stimulus %d: handed to the parent: %s; expected the aggregate of %d signers (nothing expected: %v)", i, gList(sendT), len(expectSend), expectSend == nil && !expectNilSend)
+				fails = append(fails, func(meta any) { w.v.Oracle(false, "kauri.aggregate:wrong-content-or-time", what, meta) })
+			}
 			got := len(cur) > 0
 			if got != expect {
 				fp := "kauri.collect:qc-without-quorum"
@@ -513,6 +628,15 @@ func (w *k09World) kauriCase(s *verifStream, stream string, me int, haveBlocks [
 				what := fmt.Sprintf("stimulus %d: certificate expected=%v emitted=%v (the aggregate should hold %d distinct valid signers, quorum %d)", i, expect, got, len(refAgg), w.q)
 				fails = append(fails, func(meta any) { w.v.Oracle(false, fp, what, meta) })
 			}
+		}
+	}
+	// nothing that was handed out may change afterwards (aggregates share backing arrays with later merges)
+	for _, h := range handedOut {
+		if _, syms, _ := w.decode(h.sig, h.blk); k09SigsTerm(syms) != h.term {
+			was, now := h.term, k09SigsTerm(syms)
+			fails = append(fails, func(meta any) {
+				w.v.Oracle(false, "kauri.aggregate:changed-after-emission", "an aggregate / certificate handed out earlier reads differently at the end of the run: "+now+" vs "+was, meta)
+			})
 		}
 	}
 	// final state
@@ -525,10 +649,25 @@ func (w *k09World) kauriCase(s *verifStream, stream string, me int, haveBlocks [
 	for i, x := range k.senders {
 		snd[i] = uint64(x)
 	}
-	meta := map[string]any{"stream": stream, "scheme": w.scheme, "n": w.n, "quorum": w.q, "node": me, "subtree": sub, "leaf": leaf,
+	// the kernel sees the stimuli without the membership growth
+	var kEv []string
+	for i, e := range evs {
+		if e.kind != 'M' {
+			kEv = append(kEv, evT[i])
+		}
+	}
+	meta := map[string]any{"stream": stream, "scheme": w.scheme, "n": w.n, "quorum": w.q, "node": meID, "subtree": sub, "leaf": leaf,
+		"replica_ids": w.ids[:w.n], "created_with_members": w.startN, "sub_sender_fails": w.failSub,
 		"blocks": k09Names(haveBlocks), "stimuli": evS, "observed_per_stimulus": obsT, "final_aggregate": finAgg,
 		"final_aggSent": k.aggSent, "final_senders": snd, "panic": panicked}
-	w.v.Seen(fmt.Sprintf("K|%s|%d|%d|%v|%s", w.scheme, w.n, me, blockIDs, strings.Join(evT, ";")), nqc > 0 || nsend > 0, meta)
+	w.v.Seen(fmt.Sprintf("K|%s|%d|%s|%d|%v|%d|%v|%s", w.scheme, w.n, w.idset, me, w.failSub, w.startN, blockIDs, strings.Join(evT, ";")), nqc > 0 || nsend > 0, meta)
+	w.v.Count("kauri-ids:" + w.idset)
+	if w.startN > 0 {
+		w.v.Count("kauri-membership-growth")
+	}
+	if w.failSub {
+		w.v.Count("kauri-sub-sender-fails")
+	}
 	w.v.Count(fmt.Sprintf("kauri:%s:n=%d:node=%d", w.scheme, w.n, me))
 	w.v.Count(fmt.Sprintf("kauri-certificates=%d", nqc))
 	for kd := range kinds {
@@ -545,7 +684,7 @@ func (w *k09World) kauriCase(s *verifStream, stream string, me int, haveBlocks [
 		f(meta)
 	}
 	w.v.Case(s, fmt.Sprintf("(%s, %s, %s, %s, %s, %s, (%s, %s, %s))", w.members, gNs(sub), gBool(leaf), gNs(blockIDs),
-		gList(evT), gList(obsT), finAgg, gBool(k.aggSent), gNs(snd)), meta)
+		gList(kEv), gList(obsT), finAgg, gBool(k.aggSent), gNs(snd)), meta)
 }
 
 func k09Names(bs []*k09Block) []string {
@@ -575,7 +714,7 @@ func k09Genuine(w *k09World, ss []k09Sig, blk *k09Block) (bool, string) {
 			return false, fmt.Sprintf("signer %d twice", s.lab)
 		}
 		seen[s.lab] = true
-		if s.lab < 1 || s.lab > uint64(w.n) {
+		if !w.isMember(s.lab) {
 			return false, fmt.Sprintf("signer %d is not a member", s.lab)
 		}
 		if s.signer != s.lab || s.hash != blk.id {
@@ -624,20 +763,30 @@ func TestVerifC09(t *testing.T) {
 	sPerm := v.Stream("kperm", "k_mismatches", 600)
 	sRand := v.Stream("krand", "k_mismatches", 500)
 	worlds := map[string]*k09World{}
-	world := func(scheme string, n int) *k09World {
-		key := fmt.Sprintf("%s/%d", scheme, n)
+	worldIDs := func(scheme string, n int, idset string) *k09World {
+		key := fmt.Sprintf("%s/%d/%s", scheme, n, idset)
 		if w, ok := worlds[key]; ok {
 			return w
 		}
-		w := k09NewWorld(v, scheme, n)
+		w := k09NewWorld(v, scheme, n, idset)
 		worlds[key] = w
 		return w
+	}
+	world := func(scheme string, n int) *k09World { return worldIDs(scheme, n, "dense") }
+	anyWorld := func(scheme string, n int) *k09World {
+		if v.rng.Intn(2) == 0 {
+			return world(scheme, n)
+		}
+		if scheme == crypto.NameBLS12 {
+			return worldIDs(scheme, n, "sparse16")
+		}
+		return worldIDs(scheme, n, "sparse")
 	}
 
 	// contribution builders
 	contrib := func(w *k09World, label string, from uint64, view uint64, elems ...k09Elem) k09Ev {
 		sig, syms := w.sig(elems...)
-		return k09Ev{kind: 'C', id: from, view: view, sig: sig, syms: syms, label: label}
+		return k09Ev{kind: 'C', id: w.id(int(from)), view: view, sig: sig, syms: syms, label: label}
 	}
 	group := func(w *k09World, label string, from uint64, view uint64, blk *k09Block, ids ...int) k09Ev {
 		es := make([]k09Elem, len(ids))
@@ -649,21 +798,21 @@ func TestVerifC09(t *testing.T) {
 	hostile := func(w *k09World, me int, B, C *k09Block) []k09Ev {
 		n := w.n
 		hs := []k09Ev{
-			group(w, "foreign-block", 2, 5, C, n),                                // signature over another block
-			group(w, "wrong-view", 3, 4, B, n),                                   // valid but for another view
-			group(w, "overlaps-own", 2, 5, B, me, me%n+1),                        // contains this node's own signer
-			contrib(w, "relabelled", 3, 5, w.genuine(n, B).relabel(uint64(n-1))), // n's signature labelled n-1
-			contrib(w, "non-member", 2, 5, w.genuine(n+1, B)),                    // outsider
-			{kind: 'C', id: 2, view: 5, sig: nil, label: "absent-signature"},     // nil signature
-			group(w, "valid-late-duplicate", uint64(n), 5, B, n),                 // a second copy of a valid one
-			group(w, "claims-other-sender", uint64(me), 5, B, n-1),               // valid, sender id = this node
+			group(w, "foreign-block", 2, 5, C, n),                                          // signature over another block
+			group(w, "wrong-view", 3, 4, B, n),                                             // valid but for another view
+			group(w, "overlaps-own", 2, 5, B, me, me%n+1),                                  // contains this node's own signer
+			contrib(w, "relabelled", 3, 5, w.genuine(n, B).relabel(w.id(n-1))),             // n's signature labelled n-1
+			contrib(w, "non-member", 2, 5, w.genuine(n+1, B)),                              // outsider
+			{kind: 'C', id: w.id(min(2, n)), view: 5, sig: nil, label: "absent-signature"}, // nil signature
+			group(w, "valid-late-duplicate", uint64(n), 5, B, n),                           // a second copy of a valid one
+			group(w, "claims-other-sender", uint64(me), 5, B, n-1),                         // valid, sender id = this node
 		}
 		if w.scheme != crypto.NameBLS12 {
 			e := w.genuine(n, B)
 			hs = append(hs,
-				contrib(w, "garbage", 3, 5, w.garbage(uint64(n))),
+				contrib(w, "garbage", 3, 5, w.garbage(w.id(n))),
 				contrib(w, "repeated-signer", 2, 5, e, e),
-				contrib(w, "garbage-tail", 2, 5, w.genuine(n, B), w.garbage(uint64(n-1))),
+				contrib(w, "garbage-tail", 2, 5, w.genuine(n, B), w.garbage(w.id(n-1))),
 				contrib(w, "empty", 2, 5),
 			)
 		}
@@ -717,6 +866,45 @@ func TestVerifC09(t *testing.T) {
 		}
 	}
 
+	// (a2) the wait timer at every position of the round (before, between and after the contributions: late
+	// contributions meet an emptied aggregate), with contiguous and with non-contiguous large replica ids
+	for _, idset := range []string{"dense", "sparse"} {
+		n := 4
+		w := worldIDs(crypto.NameECDSA, n, idset)
+		B, C := w.blocks["B"], w.blocks["C"]
+		have := []*k09Block{B, C}
+		for _, me := range []int{1, 2, n} {
+			var others []int
+			for i := 1; i <= n; i++ {
+				if i != me {
+					others = append(others, i)
+				}
+			}
+			a, b, c := others[0], others[1], others[2]
+			set := []k09Ev{group(w, "single", uint64(a), 5, B, a), group(w, "single", uint64(b), 5, B, b), group(w, "single", uint64(c), 5, B, c)}
+			kinds := map[string]bool{"foreign-block": true, "garbage-tail": true, "overlaps-own": true, "valid-late-duplicate": true, "repeated-signer": true, "relabelled": true}
+			if me == n || idset == "sparse" {
+				kinds = map[string]bool{"foreign-block": true, "repeated-signer": true}
+			}
+			if idset == "sparse" && me != 1 {
+				continue
+			}
+			for _, hv := range hostile(w, me, B, C) {
+				if !kinds[hv.label] {
+					continue
+				}
+				items := append(append([]k09Ev{}, set...), hv, k09Ev{kind: 'T', view: 5})
+				k09Perms(len(items), func(p []int) {
+					evs := []k09Ev{{kind: 'B', blk: B, view: 5}}
+					for _, i := range p {
+						evs = append(evs, items[i])
+					}
+					w.kauriCase(sPerm, "kauri-perm-timer", me, have, evs)
+				})
+			}
+		}
+	}
+
 	// (b) seeded random: all schemes, several rounds, timers in between, late contributions, missing block
 	schemes := []string{crypto.NameECDSA, crypto.NameEDDSA, crypto.NameBLS12}
 	nRand := pick(700, 9000)
@@ -729,16 +917,16 @@ func TestVerifC09(t *testing.T) {
 			scheme = schemes[2]
 		}
 		n := []int{4, 7}[v.rng.Intn(2)]
-		w := world(scheme, n)
+		w := anyWorld(scheme, n)
 		B, C := w.blocks["B"], w.blocks["C"]
 		me := 1 + v.rng.Intn(n)
+		w.failSub = v.rng.Intn(6) == 0 // the proposal cannot be forwarded to the children: aggregation goes on regardless
 		have := []*k09Block{B, C}
 		if v.rng.Intn(12) == 0 {
 			have = []*k09Block{C} // the round's block cannot be obtained
 		}
 		hs := hostile(w, me, B, C)
 		evs := []k09Ev{{kind: 'B', blk: B, view: 5}}
-		timerSeen := false
 		steps := 3 + v.rng.Intn(7)
 		used := map[int]bool{me: true}
 		for sI := 0; sI < steps; sI++ {
@@ -763,14 +951,9 @@ func TestVerifC09(t *testing.T) {
 				}
 				evs = append(evs, group(w, "valid-group", uint64(ids[0]), view, B, ids...))
 			case x < 9:
-				h := hs[v.rng.Intn(len(hs))]
-				if h.label == "repeated-signer" && timerSeen {
-					continue // after the timer the aggregate is nil: behaviour then depends on fixes/C02-distinct-signers
-				}
-				evs = append(evs, h)
+				evs = append(evs, hs[v.rng.Intn(len(hs))])
 			case x < 10:
-				evs = append(evs, k09Ev{kind: 'T', view: []uint64{5, 5, 4}[v.rng.Intn(3)]})
-				timerSeen = true
+				evs = append(evs, k09Ev{kind: 'T', view: []uint64{5, 5, 4, 6}[v.rng.Intn(4)]}) // current, stale and future timers
 			case x < 11:
 				evs = append(evs, k09Ev{kind: 'B', blk: C, view: 6})
 				used = map[int]bool{me: true}
@@ -780,7 +963,6 @@ func TestVerifC09(t *testing.T) {
 						evs = append(evs, group(w, "valid-group-next-round", uint64(i+1), 6, C, i+1))
 					}
 				}
-				timerSeen = false
 			default:
 				evs = append(evs, group(w, "before-any-round-view", 2, 0, B, min(2, n)))
 			}
@@ -789,6 +971,66 @@ func TestVerifC09(t *testing.T) {
 			evs = append([]k09Ev{group(w, "before-any-round", 2, 0, B, min(2, n)), group(w, "before-any-round", 2, 5, B, min(2, n))}, evs...)
 		}
 		w.kauriCase(sRand, "kauri-random", me, have, evs)
+		w.failSub = false
+	}
+
+	// (b2) membership growth: the node (Kauri, Authority, crypto base) is created while the configuration knows
+	// only the first four of seven replicas; after at most one contribution (never an old quorum) the others are
+	// added with RuntimeConfig.AddReplica. The model's membership is the final one.
+	nGrow := pick(150, 1500)
+	for it := 0; it < nGrow; it++ {
+		scheme := schemes[0]
+		switch x := v.rng.Intn(20); {
+		case x < 5:
+			scheme = schemes[1]
+		case x < 6:
+			scheme = schemes[2]
+		}
+		n := 7
+		w := anyWorld(scheme, n)
+		B, C := w.blocks["B"], w.blocks["C"]
+		me := 1 + v.rng.Intn(4)
+		var pre []k09Ev
+		for _, h := range hostile(w, me, B, C) {
+			if h.label != "valid-late-duplicate" && h.label != "claims-other-sender" && v.rng.Intn(5) == 0 {
+				pre = append(pre, h)
+			}
+		}
+		used := map[int]bool{me: true}
+		if v.rng.Intn(3) > 0 {
+			o := 1 + v.rng.Intn(4)
+			if o != me {
+				pre = append(pre, group(w, "valid-before-growth", uint64(o), 5, B, o))
+				used[o] = true
+			}
+		}
+		v.rng.Shuffle(len(pre), func(i, j int) { pre[i], pre[j] = pre[j], pre[i] })
+		evs := append([]k09Ev{{kind: 'B', blk: B, view: 5}}, pre...)
+		evs = append(evs, k09Ev{kind: 'M'})
+		hs := hostile(w, me, B, C)
+		for sI := 2 + v.rng.Intn(5); sI > 0; sI-- {
+			if v.rng.Intn(4) == 0 {
+				evs = append(evs, hs[v.rng.Intn(len(hs))])
+				continue
+			}
+			var ids []int
+			for _, i := range v.rng.Perm(n) {
+				if id := i + 1; !used[id] && len(ids) < 1+v.rng.Intn(3) {
+					ids = append(ids, id)
+				}
+			}
+			if len(ids) == 0 {
+				break
+			}
+			for _, id := range ids {
+				used[id] = true
+			}
+			evs = append(evs, group(w, "valid-group", uint64(ids[0]), 5, B, ids...))
+		}
+		evs = append(evs, k09Ev{kind: 'T', view: 5})
+		w.startN = 4
+		w.kauriCase(sRand, "kauri-membership-growth", me, []*k09Block{B, C}, evs)
+		w.startN = 0
 	}
 	v.Close("one evaluation = one stimulus sequence on a real Kauri node (event loop drained after every stimulus); non-trivial = a certificate was emitted or an aggregate was handed to the parent")
 	if len(v.fails) > 0 {
